@@ -61,6 +61,8 @@ def classify(case, detail):
     what = detail.get("what")
     sql = case.get("sql", "")
     up = sql.upper()
+    if d != "non-validating" and what == "column pairs differ" and "setop_first_branch_sourceless_item" in (case.get("features") or []):
+        return "K-union-literal@C09"
     if d == "clickhouse" and what == "tables differ" and not (set(detail["reported"][0]) - set(detail["expected"][0])) and detail["reported"][1] == detail["expected"][1]:
         return "K-clickhouse-where-subquery@C09"
     if d == "clickhouse" and up.startswith("CREATE VIEW") and what == "column pairs differ" and C02._retargeted_only(detail):
@@ -81,6 +83,9 @@ def _only_missing_sources(detail):
 
 
 NV_KNOWN = {
+    "K-sqlparse-recursive-cte@C09": lambda case, up, what, detail: "WITH RECURSIVE" in up and what == "tables differ" and detail["reported"][1] == detail["expected"][1]
+    and set(detail["expected"][0]) < set(detail["reported"][0]) and all(t.startswith("<default>.q") for t in set(detail["reported"][0]) - set(detail["expected"][0])),
+    "K-sqlparse-nested-join-derived@C09": lambda case, up, what, detail: any(f == "from:right_nested_join_derived" for f in (case.get("features") or [])) and _only_missing_sources(detail),
     "K-sqlparse-paren-where-subquery@C09": lambda case, up, what, detail: "paren_where_subquery" in (case.get("features") or []) and (
         _only_missing_sources(detail) or (up.startswith("CREATE TABLE IF NOT EXISTS") and set(detail["reported"][0]) <= set(detail["expected"][0]) and detail["reported"][1] == [])),
     "K-sqlparse-mixedjoin@C09": lambda case, up, what, detail: "comma_after_join" in (case.get("features") or []) and _only_missing_sources(detail),
@@ -148,22 +153,75 @@ def _worker(payload):
     return res
 
 
+def _skeleton_worker(payload):
+    """deterministic stream: every FROM shape (no subquery) and every subquery position (over three FROM shapes) of the C01 skeleton as INSERT INTO,
+    under ALL 28 dialects and the legacy analyzer; table lineage only (several positions are outside the column reference model)"""
+    shard, nshards, ctx = payload
+    res = runner.Res()
+    dl = C01.all_dialects()
+    idx = 0
+    for stmt, feats in C01.skeletons((0,)):
+        if "kind:insert_into" not in feats or len(feats) < 3:
+            continue
+        fshape = next(f for f in feats if f.startswith("from:"))
+        pos = feats[2]
+        if pos != "none" and fshape not in ("from:single", "from:comma2", "from:join:LEFT JOIN"):
+            continue
+        if pos in ("scalar_subquery_select_item", "having_subquery"):
+            continue  # finding probes of C01
+        idx += 1
+        if idx % nshards != shard:
+            continue
+        sql = ir.r_stmt(stmt)
+        exp = ir.expected_tables(stmt)
+        exp3 = (exp[0], exp[1], [])
+        views_ = {}
+        for d in dl:
+            if C01.accepted(stmt, sql, d):
+                views_[d] = C02.actual(sql, d)
+        views_["non-validating"] = C02.actual(sql, "non-validating")
+        res.case(("skeleton", sql), len(views_) >= 4, labels=["skeleton", "skeleton:" + pos], sample={"sql": sql, "accepted_by": len(views_) - 1} if len(sql) < 200 else None)
+        res.evals += len(views_) - 1
+        res.labels["analyses"] += len(views_)
+        good = [d for d, v in views_.items() if diff_vs_reference(exp3, v, tables_only=True) is None]
+        if not good:
+            res.labels["unanimous_but_differs_from_reference(C01 matter)"] += 1
+            continue
+        for d, v in sorted(views_.items()):
+            df = diff_vs_reference(exp3, v, tables_only=True)
+            if df is None:
+                continue
+            c = {"sql": sql, "dialect": d, "expected": {"S": exp[0], "T": exp[1], "pairs": []}, "features": C02.ir_features(stmt) + list(feats), "agreeing_dialects": good[:6], "tables_only": True}
+            fid = classify(c, df)
+            if fid and fid in ctx.active:
+                res.known(fid, c)
+            elif os.environ.get("VERIF_COLLECT"):
+                res.known("UNLISTED skeleton | " + d + " | " + df["what"] + " | " + fshape + " | " + pos, c)
+            elif len(res.violations) < 4:
+                res.violation("dialect-disagreement" if d != "non-validating" else "parser-disagreement", c, df)
+    return res
+
+
 def replay(case):
     e = case["expected"]
     exp = (e["S"], e["T"], [tuple(p) for p in e.get("pairs", [])])
     got = C02.actual(case["sql"], case["dialect"])
-    df = diff_vs_reference(exp, got, tables_only=case["dialect"] == "non-validating")
+    df = diff_vs_reference(exp, got, tables_only=case["dialect"] == "non-validating" or case.get("tables_only", False))
     if df is None:
         return None
+    if case.get("no_agreeing_configuration_needed"):
+        return {"kind": "replay", "case": case, "detail": df}
     # a disagreement needs another configuration that does match the reference
     ref = C02.actual(case["sql"], "ansi" if case["dialect"] != "ansi" else "postgres")
-    if diff_vs_reference(exp, ref, tables_only=case["dialect"] == "non-validating") is not None:
+    if diff_vs_reference(exp, ref, tables_only=case["dialect"] == "non-validating" or case.get("tables_only", False)) is not None:
         return None
     return {"kind": "replay", "case": case, "detail": df}
 
 
 def run(ctx):
-    n = ctx.n(192, 8000)
+    n = ctx.n(128, 8000)
     payloads = [(i, max(1, n // runner.NCPU), 2 if i % 4 == 0 else 1, ctx) for i in range(runner.NCPU)]
     res = runner.merge_all(runner.pmap(_worker, payloads))
+    nshards = runner.NCPU * 2
+    res.merge(runner.merge_all(runner.pmap(_skeleton_worker, [(i, nshards, ctx) for i in range(nshards)])))
     return res
